@@ -84,9 +84,9 @@ def coq_rdoc(c: dict, encoding: str) -> str:
 
 
 MANIFEST = dict(
-    technique='Rocq proof (binary DMX body round trip for versions 0-5; type-code round trip; fixed-width value codecs through the shared struct model incl. the TIME codec over exact rationals with a proved binary64 rounding model; typed binary documents; KeyValues2 on the shared tokenizer model: reference decision tables, flat layout text -> tokens -> document -> graph (fix-up pass), nested layout with the full parser recursion by mutual nested induction; value strings through C05\'s exact %.6f model; KV1 bridge; round 3: the ordered dict of members of an element of members below the binary document - attribute count = records written for every history of the mapping API, export of the real dicts = export of the document they denote; the dict the readers build is keyed by the casefolded names and is the canonical form of the exported dict; KeyValues2 at the level of the dict: what the reader builds from the records the writer wrote denotes the same element) + ast translator (normalising: helper inlining, single-use locals, else-after-return, Struct constants, loop vs comprehension, locals by role) with 72 kernel-checked instance obligations + seven vm_compute correspondences (byte-exact binary, scalar codecs, KV2 flat / nested text exact, keyword predicate, value strings, KV1 bridge) + isomorphism oracle on real graphs; round 4: the root selection of export_kv2 (use counts, threshold, keyword rule, exported element, flat) read from the source as a generated rootcfg and the graph -> tree-of-blocks step modelled and proved (every reachable element written exactly once, the writer\'s recursion total, the tree carried by the text, cull_uuid = erasure of inline ids), one statement of the whole property per encoding (c14_property_binary, c14_property_kv2), translator locals matched by the role of their binding site, a time limit around every call into the implementation',
-    text='Theorems in Props/C14.v (90; all closed under the global context; 73-90 from round 4 are described at the end): the attribute type byte decodes to the same (type, array?) pair; parse_bin (export_bin d) = d for every expressible document (versions 0-5); every fixed-width value representable in its wire type (int32, binary32 patterns, booleans, tick-exact times, colour bytes, vectors, angles in [0,360), quaternions, the 3x3 part of a matrix) is packed by the generated struct format into calcsize bytes and unpacked to the same value (Bin/Struct unpack_pack instantiated); round((k/S)*S) = k in binary64 for every 32-bit tick count, with |rn64 x - x| <= 2^-53 |x| proved for the executable rounding model, and int() instead of round() refuted by a computed witness; typed documents survive lower -> export_bin -> parse_bin -> lift; a KV2 reference decision table meeting its condition writes NULL / stub / root / inline exactly as the format needs and the two sites agree (dropping `or is_stub` refuted); the flat-layout text of any document re-tokenises (C02 quoted_embedding composed) and re-parses to the document, and linking UUID references gives back the graph (sharing, cycles, NULL, stubs) for pairwise distinct ids; the nested-layout text re-parses to the tree of inline blocks at any depth provided no inline element has an attribute type keyword as its type (refuted otherwise: the defect repaired in this round); FLOAT / vector component text denotes the value rounded half-even at 6 places, vector texts split into their components, int and colour texts parse back; to_kv1 (from_kv1 t) = t. All configurations (type codes, sizes, struct formats, TIME rounding function and scales, MATRIX slot layout, codec per string site, stub payload, KV2 escaping / codec per field, the two reference if-chains, the keyword-root rule, Tokenizer kwargs, ValueType keywords, _fmt_float and the vector / colour string converters, KV1 constants) are regenerated from dmx.py (tokenizer tables from tokenizer.py) on every run and the premises are kernel-checked as named obligations. The models are compared with the implementation on generated inputs on every run; generated graphs (DAGs, cycles, stubs, NULLs, all types, empty arrays, 3 unicode modes, versions 1-5, KV2 flat/nested/cull_uuid) are round-tripped through Element.parse and compared up to isomorphism. Round 3 (47-72): for every count expression / loop filters / Element.name meeting cnt_cfg_ok and every dict with pairwise distinct keys the attribute count export_binary writes equals the number of records it writes, with or without the name member; every operation of the mapping API (clear, del, pop, popitem, name setter, item assignment, setdefault) keeps the keys distinct and the dict keyed by the casefolded names, hence every history on a fresh element; export_raw on the real dicts = export_bin of the document they denote and parses back to it (versions 0-5); len(elem) - 1 and a record loop testing attr.name are refuted by computed witnesses; from_kv1 with both name tests on the casefolded name is the proved bridge, either test on the case-preserved name is refuted; the dict a reader builds from a document element is the name member followed by one member per record under its casefolded name, elem[a.name] finds every attribute, it denotes the document element, and composed with the export theorems it is the canonical form of the exported dict; a reader storing under the name as written is refuted. KeyValues2 at the level of the dict: for every dict keyed by the casefolded names whose name member is a string, either name test of the reader and every skip test of the writer that skips only the member keyed name, the dict read from the records written is the name member holding Element.name followed by every other member under its key in order, so it denotes the same element - for every API history; a name member spelled NAME keeps its spelling through KeyValues2 (computed example); a loop skipping another key is refuted. Round 4 (73-90): a root rule meeting root_rule_ok decides exactly flat / used twice or more / keyword type / exported element, so an element written inline is referred to at most once; for any root predicate every block of the tree nest_doc gives is, read back (unnest), an element of the graph with its references by id, and every element reachable from the exported one is written; with the root rule no element is written twice (blocks counted level by level below the roots; the holder of an inline element is unique), the recursion ends with fuel length g + 1, the tree meets ndoc_ok (inline blocks have no keyword type because such elements are roots), cull_uuid erases the ids of inline blocks only and no reference names an inline block; flatten (link d) = d for every document (the graph the fix-up pass builds is determined by the registered elements up to numbering); hence c14_property_kv2: for every graph with distinct ids whose elements are all reachable, the flat text parses and links back to the graph, and the nested tree exists, is parsed back from its text, holds every element once with the exported one first and is a permutation of the flat document whose references resolve to the graph; count > 2 and a missing name line for empty names are refuted by computed witnesses. c14_property_binary: the bytes written from the real dicts (any API history) whose values are the packed form of representable typed values parse to a document that unpacks to those values and gives the canonical reader dicts.',
-    note='Trusted: Coq kernel + vm_compute, translate/c14_dmx.py and translate/c02_tables.py, the hand models Fmt/DmxBin.v, Fmt/DmxKv1.v, Fmt/DmxScalar.v, Fmt/DmxKv2.v, Fmt/DmxKv2Nested.v, Fmt/DmxValText.v (each tied by a differential run on every run) and the shared Bin/Struct.v, Text/Tokenizer.v, Num/Dec6.v; CPython codecs / uuid (str.encode/decode and UUID text are parameters or opaque texts); binary64 arithmetic is rn64 of the exact result (no exponent range; compared with CPython float * and / on every run); a binary32 value is its bit pattern (harness converts with struct "<f"); FrozenAngle normalisation identity on [0,360) is a hypothesis checked on sampled patterns; breadth-first numbering of the object graph is done by the harness and checked by the byte-exact comparison. Not modelled (oracle only): float(text) / str(float) / hex / bool strings, malformed KV2 input, the DMX header line and unicode flag, format name/version. Round 3: the members-level models Fmt/DmxMembers.v / Fmt/DmxMembersParse.v are tied by correspondence:binary (export_raw on the real dicts byte-exact; the dicts of the parsed elements, for ASCII names) and by the translated count expression, loop filters, Element.name, Element.__init__ and the key expression of the three member stores; Fmt/DmxMembersKv2.v is tied by the translated skip test of _export_kv2, the name test of _parse_kv2_element and correspondence:binary code 6 (keys and spellings after a flat KeyValues2 round trip, ASCII names); the dict-level KeyValues2 theorems are not composed with the text-level ones (records -> text -> records is theorems 28 / 32 on documents of name + records); the member keyed "name" is the name of the element whatever its spelling or type (an attribute assigned as \'NAME\' is that member). Round 4: Fmt/DmxKv2Graph.v (nest_doc / unnest / is_root) is tied by the translated root rule (use_count initial value, first-use value, increment, stub skip, comparison and threshold, keyword update, roots.add(self.uuid), flat branch, the writing loop and the arguments handed to _export_kv2), the id-line condition and the unconditional name line of _export_kv2, and by correspondence:kv2-nested-text codes 6-8 (nest_doc of the real object graph renders to the exported text, with and without cull_uuid; every element written once; unnest of the parsed tree = the object graph Element.parse returned); the reader-dict correspondences now run on code points with the regenerated casefold table (names outside ASCII included); the graph-level KeyValues2 theorems are on documents of name + records (the dict-level theorems 68-72 stay a separate layer); the step from the elements the reader registers to object identity (an inline block is the attribute value itself, a reference is resolved through id_to_elem) is modelled as resolution by id, which is the same thing because no id is registered twice (written_once). Print Assumptions is asked once for the conjunction of all theorems of Props/C14.v (per-theorem fallback if it is not closed). No known finding left: the round-1 finding (inline element whose type is an attribute type keyword) is repaired in the repo branch.',
+    technique='Rocq proof (binary DMX body round trip for versions 0-5; type-code round trip; fixed-width value codecs through the shared struct model incl. the TIME codec over exact rationals with a proved binary64 rounding model; typed binary documents; KeyValues2 on the shared tokenizer model: reference decision tables, flat layout text -> tokens -> document -> graph (fix-up pass), nested layout with the full parser recursion by mutual nested induction; value strings through C05\'s exact %.6f model; KV1 bridge; round 3: the ordered dict of members of an element of members below the binary document - attribute count = records written for every history of the mapping API, export of the real dicts = export of the document they denote; the dict the readers build is keyed by the casefolded names and is the canonical form of the exported dict; KeyValues2 at the level of the dict: what the reader builds from the records the writer wrote denotes the same element) + ast translator (normalising: helper inlining, single-use locals, else-after-return, Struct constants, loop vs comprehension, locals by role) with 74 kernel-checked instance obligations + seven vm_compute correspondences (byte-exact binary, scalar codecs, KV2 flat / nested text exact, keyword predicate, value strings, KV1 bridge) + isomorphism oracle on real graphs; round 4: the root selection of export_kv2 (use counts, threshold, keyword rule, exported element, flat) read from the source as a generated rootcfg and the graph -> tree-of-blocks step modelled and proved (every reachable element written exactly once, the writer\'s recursion total, the tree carried by the text, cull_uuid = erasure of inline ids), one statement of the whole property per encoding (c14_property_binary, c14_property_kv2), translator locals matched by the role of their binding site, a time limit around every call into the implementation; round 5: the isomorphism of the nested KeyValues2 round trip written out (renumbering by id, proved for all graphs and evaluated in the kernel on the graph the real parser returns), cull_uuid output proved independent of the ids of inline elements, parse_bin read entirely by the role of its locals and the module-level converters alpha-normalised by binding order, the codec argument of the binformat helpers (another module) read from the source, 74 instance obligations, a second-generation oracle (the parsed graph modified through the API and exported again) and an import guard in the search',
+    text='Theorems in Props/C14.v (99; all closed under the global context; 73-90 from round 4 are described at the end): the attribute type byte decodes to the same (type, array?) pair; parse_bin (export_bin d) = d for every expressible document (versions 0-5); every fixed-width value representable in its wire type (int32, binary32 patterns, booleans, tick-exact times, colour bytes, vectors, angles in [0,360), quaternions, the 3x3 part of a matrix) is packed by the generated struct format into calcsize bytes and unpacked to the same value (Bin/Struct unpack_pack instantiated); round((k/S)*S) = k in binary64 for every 32-bit tick count, with |rn64 x - x| <= 2^-53 |x| proved for the executable rounding model, and int() instead of round() refuted by a computed witness; typed documents survive lower -> export_bin -> parse_bin -> lift; a KV2 reference decision table meeting its condition writes NULL / stub / root / inline exactly as the format needs and the two sites agree (dropping `or is_stub` refuted); the flat-layout text of any document re-tokenises (C02 quoted_embedding composed) and re-parses to the document, and linking UUID references gives back the graph (sharing, cycles, NULL, stubs) for pairwise distinct ids; the nested-layout text re-parses to the tree of inline blocks at any depth provided no inline element has an attribute type keyword as its type (refuted otherwise: the defect repaired in this round); FLOAT / vector component text denotes the value rounded half-even at 6 places, vector texts split into their components, int and colour texts parse back; to_kv1 (from_kv1 t) = t. All configurations (type codes, sizes, struct formats, TIME rounding function and scales, MATRIX slot layout, codec per string site, stub payload, KV2 escaping / codec per field, the two reference if-chains, the keyword-root rule, Tokenizer kwargs, ValueType keywords, _fmt_float and the vector / colour string converters, KV1 constants) are regenerated from dmx.py (tokenizer tables from tokenizer.py) on every run and the premises are kernel-checked as named obligations. The models are compared with the implementation on generated inputs on every run; generated graphs (DAGs, cycles, stubs, NULLs, all types, empty arrays, 3 unicode modes, versions 1-5, KV2 flat/nested/cull_uuid) are round-tripped through Element.parse and compared up to isomorphism. Round 3 (47-72): for every count expression / loop filters / Element.name meeting cnt_cfg_ok and every dict with pairwise distinct keys the attribute count export_binary writes equals the number of records it writes, with or without the name member; every operation of the mapping API (clear, del, pop, popitem, name setter, item assignment, setdefault) keeps the keys distinct and the dict keyed by the casefolded names, hence every history on a fresh element; export_raw on the real dicts = export_bin of the document they denote and parses back to it (versions 0-5); len(elem) - 1 and a record loop testing attr.name are refuted by computed witnesses; from_kv1 with both name tests on the casefolded name is the proved bridge, either test on the case-preserved name is refuted; the dict a reader builds from a document element is the name member followed by one member per record under its casefolded name, elem[a.name] finds every attribute, it denotes the document element, and composed with the export theorems it is the canonical form of the exported dict; a reader storing under the name as written is refuted. KeyValues2 at the level of the dict: for every dict keyed by the casefolded names whose name member is a string, either name test of the reader and every skip test of the writer that skips only the member keyed name, the dict read from the records written is the name member holding Element.name followed by every other member under its key in order, so it denotes the same element - for every API history; a name member spelled NAME keeps its spelling through KeyValues2 (computed example); a loop skipping another key is refuted. Round 4 (73-90): a root rule meeting root_rule_ok decides exactly flat / used twice or more / keyword type / exported element, so an element written inline is referred to at most once; for any root predicate every block of the tree nest_doc gives is, read back (unnest), an element of the graph with its references by id, and every element reachable from the exported one is written; with the root rule no element is written twice (blocks counted level by level below the roots; the holder of an inline element is unique), the recursion ends with fuel length g + 1, the tree meets ndoc_ok (inline blocks have no keyword type because such elements are roots), cull_uuid erases the ids of inline blocks only and no reference names an inline block; flatten (link d) = d for every document (the graph the fix-up pass builds is determined by the registered elements up to numbering); hence c14_property_kv2: for every graph with distinct ids whose elements are all reachable, the flat text parses and links back to the graph, and the nested tree exists, is parsed back from its text, holds every element once with the exported one first and is a permutation of the flat document whose references resolve to the graph; count > 2 and a missing name line for empty names are refuted by computed witnesses. c14_property_binary: the bytes written from the real dicts (any API history) whose values are the packed form of representable typed values parse to a document that unpacks to those values and gives the canonical reader dicts. Round 5 (91-99): kv2_permuted_flat_documents_are_isomorphic: two graphs (distinct ids, references in range, stub ids not element ids) whose flat documents are permutations of each other are isomorphic by the renumbering by id (by_id): injective, element by_id(i) of the one is element i of the other with every element reference j replaced by by_id(j), everything else equal; kv2_graph_iso_identity: the identity renumbering relates only equal graphs; kv2_fixup_builds_a_graph: what the fix-up pass builds meets graph_ok when no id was registered twice; c14_property_kv2_iso: under the hypotheses of c14_property_kv2 the tree of blocks is parsed back from its text and the graph the reader builds is a graph isomorphic to the exported one by by_id, which fixes the exported element; kv2_graph_iso_test_sound: the boolean graph_iso_b the check evaluates on the graph of the real parser implies graph_iso; kv2_culled_export_ignores_inline_ids / _is_erasure_of_either: the tree written with cull_uuid is the same for all graphs that differ only in the ids of inline elements and is the erasure of the unculled tree of each (the fresh UUIDs the reader gives id-less blocks are not modelled); two computed examples.',
+    note='Trusted: Coq kernel + vm_compute, translate/c14_dmx.py and translate/c02_tables.py, the hand models Fmt/DmxBin.v, Fmt/DmxKv1.v, Fmt/DmxScalar.v, Fmt/DmxKv2.v, Fmt/DmxKv2Nested.v, Fmt/DmxValText.v (each tied by a differential run on every run) and the shared Bin/Struct.v, Text/Tokenizer.v, Num/Dec6.v; CPython codecs / uuid (str.encode/decode and UUID text are parameters or opaque texts); binary64 arithmetic is rn64 of the exact result (no exponent range; compared with CPython float * and / on every run); a binary32 value is its bit pattern (harness converts with struct "<f"); FrozenAngle normalisation identity on [0,360) is a hypothesis checked on sampled patterns; breadth-first numbering of the object graph is done by the harness and checked by the byte-exact comparison. Not modelled (oracle only): float(text) / str(float) / hex / bool strings, malformed KV2 input, the DMX header line and unicode flag, format name/version. Round 3: the members-level models Fmt/DmxMembers.v / Fmt/DmxMembersParse.v are tied by correspondence:binary (export_raw on the real dicts byte-exact; the dicts of the parsed elements, for ASCII names) and by the translated count expression, loop filters, Element.name, Element.__init__ and the key expression of the three member stores; Fmt/DmxMembersKv2.v is tied by the translated skip test of _export_kv2, the name test of _parse_kv2_element and correspondence:binary code 6 (keys and spellings after a flat KeyValues2 round trip, ASCII names); the dict-level KeyValues2 theorems are not composed with the text-level ones (records -> text -> records is theorems 28 / 32 on documents of name + records); the member keyed "name" is the name of the element whatever its spelling or type (an attribute assigned as \'NAME\' is that member). Round 4: Fmt/DmxKv2Graph.v (nest_doc / unnest / is_root) is tied by the translated root rule (use_count initial value, first-use value, increment, stub skip, comparison and threshold, keyword update, roots.add(self.uuid), flat branch, the writing loop and the arguments handed to _export_kv2), the id-line condition and the unconditional name line of _export_kv2, and by correspondence:kv2-nested-text codes 6-8 (nest_doc of the real object graph renders to the exported text, with and without cull_uuid; every element written once; unnest of the parsed tree = the object graph Element.parse returned); the reader-dict correspondences now run on code points with the regenerated casefold table (names outside ASCII included); the graph-level KeyValues2 theorems are on documents of name + records (the dict-level theorems 68-72 stay a separate layer); the step from the elements the reader registers to object identity (an inline block is the attribute value itself, a reference is resolved through id_to_elem) is modelled as resolution by id, which is the same thing because no id is registered twice (written_once). Print Assumptions is asked once for the conjunction of all theorems of Props/C14.v (per-theorem fallback if it is not closed). No known finding left: the round-1 finding (inline element whose type is an attribute type keyword) is repaired in the repo branch. Round 5: what remains semantic/trusted in the whole-property theorems is listed in docs/C14.md (Round 5, Hypotheses): codec pair and str_ok, UUID text, rn64 = CPython float arithmetic, FrozenAngle identity below 360, the value strings opaque in the KeyValues2 document models, reachability of every element from the exported one, the name member is the element name; parse_bin is now read by the role of its locals (a constructor-argument swap fails closed); gen_bin_strings_stored_as_read is a syntactic reading (assignments to the four string locals are read_nullstr calls or string-table entries).',
 )
 
 IMPORTS = ['Coq.NArith.NArith', 'Coq.ZArith.ZArith', 'Coq.Lists.List', 'Coq.Bool.Bool', 'SV.Fmt.DmxCodes', 'SV.Fmt.DmxBin',
@@ -773,7 +773,7 @@ def corr_kv2(ck: Ck) -> None:
 
 
 # ------------------------------------------------------------------------------------------------ KeyValues2, nested layout
-IMPORTS_KV2N = IMPORTS_KV2 + ['SV.Fmt.DmxKv2Nested', 'SV.Fmt.DmxKv2Graph']
+IMPORTS_KV2N = IMPORTS_KV2 + ['SV.Fmt.DmxKv2Nested', 'SV.Fmt.DmxKv2Graph', 'SV.Fmt.DmxKv2GraphIso']
 PRE_KV2N = """Import ListNotations. Open Scope N_scope.
 Fixpoint leqb {A} (f : A -> A -> bool) (a b : list A) : bool :=
   match a, b with [], [] => true | x :: a', y :: b' => f x y && leqb f a' b' | _, _ => false end.
@@ -804,7 +804,9 @@ Definition gen_isroot (g : gdoc) : nat -> bool := is_root gen_fold gen_vtnames g
    6 graph level: nest_doc of the exported object graph with the root rule read from the source fails or does not render to the exported text,
    7 an element is written more than once (written_once of the tree of blocks),
    8 the elements the reader model registers (unnest of the parsed tree) are not those of the object graph Element.parse returned
-     (same elements with references by id, same number, the returned element first; cases with every id written) *)
+     (same elements with references by id, same number, the returned element first; cases with every id written),
+   9 the object graph Element.parse returned is not isomorphic to the exported object graph by the renumbering by id
+     (graph_iso_b, proved sound in Fmt/DmxKv2GraphIso.v: element by element equal up to the renumbering of references) *)
 Definition chk3 (c : ndoc * str * option ndoc * str * option ndoc * gdoc * bool * option gdoc) : N := let '(d, text, back, text2, back2, g, cull, gback) := c in
   if negb (ndoc_ok gen_tables gen_fold gen_vtnames d) then 3
   else if str_eqb (rendern_doc gen_tables d) text
@@ -816,7 +818,7 @@ Definition chk3 (c : ndoc * str * option ndoc * str * option ndoc * gdoc * bool 
                              if negb (str_eqb (rendern_doc gen_tables dn) text) then 6
                              else if negb (match nest_doc g (gen_isroot g) false with Some d0 => written_once d0 | None => false end) then 7
                              else match cull, gback, p with
-                                  | false, Some gb, Some dp => if perm_k (unnest dp) (flatten gb) then 0 else 8
+                                  | false, Some gb, Some dp => if perm_k (unnest dp) (flatten gb) then (if graph_iso_b (by_id g gb) g gb then 0 else 9) else 8
                                   | false, Some _, None => 8
                                   | _, _, _ => 0
                                   end
@@ -958,7 +960,8 @@ def corr_kv2_nested(ck: Ck) -> None:
                   f'{len(cases)} documents: Fmt/DmxKv2Nested.v rendern_doc vs export_kv2(flat=False, cull_uuid) text (exact, roots '
                   f'recomputed by the harness), parsen_text of that text vs the block tree of Element.parse; graph level: '
                   f'Fmt/DmxKv2Graph.v nest_doc of the object graph with the generated root rule renders to the same text, every '
-                  f'element written once, unnest of the parsed tree = the parsed object graph: {len(bad)} disagreements')
+                  f'element written once, unnest of the parsed tree = the parsed object graph, the parsed object graph isomorphic to the '
+                  f'exported one by the renumbering by id (graph_iso_b): {len(bad)} disagreements')
     if cases:
         ck.sample({'kv2_nested_case': {'mode': cases[-1][1], 'spec': cases[-1][0]}})
     if bad:
@@ -970,7 +973,8 @@ def corr_kv2_nested(ck: Ck) -> None:
                                                         5: 'model parse of the re-formatted text differs from parse_kv2',
                                                         6: 'graph level: nest_doc with the root rule read from the source does not give the exported text',
                                                         7: 'an element is written more than once',
-                                                        8: 'unnest of the parsed tree is not the object graph Element.parse returned'}.get(code, code)}
+                                                        8: 'unnest of the parsed tree is not the object graph Element.parse returned',
+                                                        9: 'the object graph Element.parse returned is not isomorphic to the exported one by the renumbering by id'}.get(code, code)}
 
 
 
@@ -1384,6 +1388,8 @@ def report_failure(ck: Ck, found: dict, spec: dict, mode: dict, problem0: str = 
             pass
     if stage == 'header':
         cls = 'format-name-or-version-not-returned'
+    if stage == 'second':
+        cls = 'parsed-graph-modified-and-exported-again'
     if stage == 'compare' and ' key: stored under ' in (problem or ''):
         cls = 'attribute-not-found-under-its-name'       # same records, but the parsed dict is keyed inconsistently
     key = f'{mode_class(small, mode)}:{cls}'
@@ -1501,6 +1507,8 @@ OBLIGATIONS = {
     'new_element_starts_with_the_name_member': 'init_member_ok gen_parse',
     'kv2_record_loop_skips_only_the_name_member': 'kv2_filter_ok gen_kv2_skip',
     'kv2_roots_are_exported_or_used_twice_or_keyword_typed': 'root_rule_ok gen_rootcfg',
+    'binary_reader_keeps_strings_as_read': 'gen_bin_strings_stored_as_read',
+    'binformat_helpers_decode_with_the_codec_given': 'gen_bf_nullstr_decodes_with_codec && gen_bf_array_passes_codec_on',
     'kv2_name_line_written_for_every_element': 'gen_kv2_name_line_always',
     'kv2_id_line_left_out_only_for_culled_inline_blocks': 'id_written_ok gen_kv2_id_written',
     'property_binary_premises_hold_today': 'bin_cfg_ok gen_cfg && scalar_cfg_ok gen_scalar && sizes_match_formats gen_scalar gen_cfg && cnt_cfg_ok gen_cnt',
@@ -1513,6 +1521,8 @@ OBLIGATIONS = {
 }
 # which concrete violation keys explain which failed obligation (substring of the key)
 EXPLAIN = {
+    'instance:binary_reader_keeps_strings_as_read': ['binary', ''],
+    'instance:binformat_helpers_decode_with_the_codec_given': ['binary', 'nonascii'],
     'instance:scalar_codes_not_taken_for_arrays': ['binary', 'matrix-scalar'],
     'instance:stub_uuid_written_after_index': ['binary', 'stub'],
     'instance:codec_agrees_string_array': ['binary', 'string-array-nonascii'],
@@ -1664,9 +1674,30 @@ def run(ck: Ck) -> None:
         t1 = _time.time()
         stage_s[name] = round(t1 - t0[0], 1)
         t0[0] = t1
+    # a tree whose srctools.dmx cannot even be imported loses every graph: one violation with that as its replay, and no
+    # stage that calls the implementation (each call would import - compile - the module again: hours, not seconds)
+    importable = True
+    try:
+        with U.time_limit(60):
+            import importlib
+            for m_ in ('srctools.dmx', 'srctools.keyvalues', 'srctools.binformat', 'srctools.tokenizer'):
+                importlib.import_module(m_)
+    except (BaseException) as e:
+        if isinstance(e, (KeyboardInterrupt, SystemExit)):
+            raise
+        importable = False
+        ck.violation('import:srctools-dmx-cannot-be-imported', f'importing the implementation raised {type(e).__name__}: {str(e)[:300]}',
+                     {'kind': 'import', 'how': 'import srctools.dmx, srctools.keyvalues, srctools.binformat, srctools.tokenizer'})
+        ck.obligation('stage:import', False, f'the implementation cannot be imported: {type(e).__name__}: {str(e)[:300]}')
+        ck.explain('stage:import')
+        ck.explain('translate:')       # a translator that compares with the running module cannot succeed either
+        ck.tie_broken.append('the implementation cannot be imported')
     if built:
         stage('print_assumptions', theorems_bundled, ck, 'Props/C14.v')
         stage('instance_obligations', ck.instance_obligations, IMPORTS, OBLIGATIONS)
+    if not importable:
+        return
+    if built:
         stage('runtime', lambda: (runtime_agreement(ck, side), angle_norm_identity(ck)))
         stage('corr_scalar', corr_scalar, ck)
         stage('corr_binary', corr_binary, ck)
@@ -1695,7 +1726,10 @@ def run(ck: Ck) -> None:
         if o['name'] == 'translate:DmxCodes_gen' and not o['ok']:
             det = str(o.get('detail', ''))
             fmts = [pf for words, pf in ((('export_kv2', 'parse_kv2', '_kv2_'), 'kv2'), (('export_binary', 'parse_bin'), 'binary'),
-                                        (('from_kv1', 'to_kv1'), 'kv1-bridge')) if any(w in det for w in words)]
+                                        (('from_kv1', 'to_kv1'), 'kv1-bridge'),
+                                        # the element class itself: every format goes through it
+                                        (('Element.__init__', 'Element.name', 'Element.__len__'), 'binary'),
+                                        (('Element.__init__', 'Element.name', 'Element.__len__'), 'kv2')) if any(w in det for w in words)]
             if fmts and any(k.startswith(tuple(fmts)) for k in keys):
                 ck.explain('translate:DmxCodes_gen')
 
@@ -1718,5 +1752,15 @@ def replay(data: dict) -> int:
         print('tree:', r['tree'], 'via:', r.get('via'))
         print('result:', p)
         return 1 if p else 0
+    if isinstance(r, dict) and r.get('kind') == 'import':
+        try:
+            import importlib
+            for m_ in ('srctools.dmx', 'srctools.keyvalues', 'srctools.binformat', 'srctools.tokenizer'):
+                importlib.import_module(m_)
+            print('result: the implementation imports')
+            return 0
+        except Exception as e:
+            print('result:', type(e).__name__, e)
+            return 1
     print(r)
     return 0
